@@ -21,6 +21,7 @@ func init() {
 			ruleRing("C01.ring", 25, whyRing),
 			ruleSweepOrder("C01.order"),
 			ruleIntersectMirror("C01.mirror"),
+			ruleIntersectTable("C01.table2"),
 			ruleDead("C01.live", nil, sweepLive, 60, "these calls are the sweep and its self-intersection/join repair; a constant-dead one silently disables that repair for every input"),
 		},
 	})
@@ -33,6 +34,9 @@ func init() {
 			ruleOpenGuard("C09.guard"),
 			ruleOpenSkipped("C09.skip"),
 			ruleHorzOpenEnd("C09.horz"),
+			ruleMonotoneFlag("C09.flag", "clipperBase", "hasOpenPaths"),
+			ruleClosingDup("C09.closing-dup"),
+			ruleAllResultsUsed("C09.results", []string{"resetHorzDirection"}, "resetHorzDirection returns the span AND the direction of the next horizontal segment; refreshing only the span leaves a stale direction when an open polyline doubles back along one scanline"),
 			ruleEmit("C09.route"),
 		},
 	})
@@ -42,6 +46,7 @@ func init() {
 		notDecided: []string{"area discrepancy bounds", "agreement of the sweep's output with the contribution decisions"},
 		rules: []func(*Ctx){
 			ruleContribIdent("C19.ident"),
+			ruleIntersectTable("C19.table2"),
 			ruleWrappers("C19.wrap"),
 		},
 	})
@@ -66,7 +71,7 @@ func init() {
 		id: "C07",
 		explanation: "Decides structural clauses of C07 for every D entry point (enumerated by type): (prec) the precision that reaches math.Pow(10,p) is the caller's value unmodified (a constant 2 only when the optional argument is absent) and a [-8,8] range check with the ErrPrecisionRange panic dominates it; (in) every PathD/PathsD/RectD input reaches 64-bit code only through ScalePath(s)DToPath(s)64/ScaleRectD with this call's scale, delta and arc tolerance are multiplied by it, the miter limit is not; (out) every PathD/PathsD result is ScalePath(s)64ToPath(s)D(x, 1/scale) with the same scale (or delegated to another D entry point); (round) the quantiser rounds coord*scale to an integer axis by axis and rectangles use the same quantiser; (same) after removing scaling and validation the wrapper calls exactly what its 64-bit sibling calls, with the same constants. Does NOT decide bit-exact equality of the decimal round trip or float overflow at the domain edge.",
 		notDecided: []string{"bit-exactness of ScalePath64ToPathD's decimal multiplication", "float overflow when |coord|*10^p leaves the integer domain", "behaviour of caller-supplied scale functions (*WithScaleFunc)"},
-		rules:      []func(*Ctx){ruleScale("C07")},
+		rules:      []func(*Ctx){ruleScale("C07"), ruleQuantiserReturns("C07.round.returns")},
 	})
 }
 
@@ -99,6 +104,7 @@ func init() {
 			ruleWidth("C14.exact.int", 29, exactPredicates, 10, "at |coord| <= 2^29 every difference has 30 bits and every product 60: anything wider means a wrapped or truncated intermediate, i.e. a wrong sign for some triple"),
 			ruleExactFloat("C14.exact.float", 29, exactPredicates, "the library treats three points as collinear / a point as on an edge exactly when this value is zero: a float detour beyond 53 bits rounds small non-zero cross products to zero (PointInPolygon answers IsOn for an inside point next to a long edge)"),
 			ruleBounds("C14.bounds", []string{"GetBounds64", "getBounds"}),
+			ruleBoundsEmpty("C14.bounds.empty"),
 			rulePositive("C14.pos"),
 		},
 	})
@@ -115,13 +121,13 @@ func init() {
 		id: "C04",
 		explanation: "Decides structural clauses of C04: (once) AddChild is called only from recursiveCheckOwners, under the polypath==nil guard, and its node is stored in outrec.polypath, so each output record is inserted at most once; (same-pipeline) tree polygons are produced by the same cleanCollinear -> buildPath(pts, c.reverseSolution, false, &outrec.path) pipeline as the flat result and outrec.path has no other writer; (hole) IsHole() is true exactly on even non-zero levels and Level() counts .parent links; (owner) a ring split off by a horizontal join gets its owner by containment (inside the old ring: child; beside it: sibling; around it: rings swapped) and is recorded in the old ring's splits; (bounds) lazily computed OutRec.bounds are read only after checkBounds(record) succeeded; (grow) buildTree/buildPaths re-read len(outrecList) every iteration because clean-up appends records. Does NOT decide containment/nesting correctness (path1InsidePath2, owner heuristics) or innermost-parent choice.",
 		notDecided: []string{"containment and nesting (path1InsidePath2, checkSplitOwner, setOwner heuristics)", "innermost-parent choice", "equality of the polygon SET with the flat result when polygons split", "moveSplits appends loop indices instead of split values (deviation, not demonstrable: 120 000 random tree executions identical to a repaired copy)"},
-		rules:      []func(*Ctx){ruleEmit("C04"), ruleIsHole("C04.hole"), ruleHorzJoinOwner("C04.owner"), ruleLazyBounds("C04.bounds"), ruleGrowingList("C04.grow")},
+		rules:      []func(*Ctx){ruleEmit("C04"), ruleIsHole("C04.hole"), ruleHorzJoinOwner("C04.owner"), ruleLazyBounds("C04.bounds"), ruleGrowingList("C04.grow"), ruleLocalMaxOwner("C04.owner.max")},
 	})
 	register(&propDef{
 		id: "C12",
 		explanation: "Decides structural clauses of C12: (clear) in every exported Execute*, on every path, the first effect on each solution argument is a truncation / tree Clear, followed through the callees that receive it; (reset) every engine field written during an execution (computed from the code for clipperBase, ClipperOffset, RectClip64) has a re-initialisation proof: assigned by reset/prologue on every path, emptied by the epilogue that precedes every return, or a mode field assigned by every caller; the sorted-minima flag is cleared whenever the retained list grows; rectangle-clipper edge buckets are all emptied per path; (frozen-input) nothing reachable from an execution writes the retained Vertex/LocalMinima graph; (immutable) no library write can reach memory of a caller-supplied input slice. Identical state then implies identical results because the code is deterministic (C17).",
 		notDecided: []string{"independence of the order in which paths were added (geometric tie-breaking)", "conditionally assigned round-join step fields are argued by hand (stepSin/stepCos/stepsPerRad)", "callbacks and scale functions supplied by the caller"},
-		rules:      []func(*Ctx){ruleClearFirst("C12.clear"), ruleReset("C12.reset"), ruleFrozenInput("C12.frozen-input"), ruleImmutable("C12.immutable")},
+		rules:      []func(*Ctx){ruleClearFirst("C12.clear"), ruleReset("C12.reset"), ruleFrozenInput("C12.frozen-input"), ruleImmutable("C12.immutable"), ruleMonotoneFlag("C12.flag", "clipperBase", "hasOpenPaths"), ruleFreshScratch("C12.fresh", "ClipperOffset", "pathOut")},
 	})
 }
 
@@ -149,7 +155,7 @@ func init() {
 		explanation: "Decides structural clauses of C05: (join) offsetPoint's dispatch over JoinType builds exactly the constructor set of the property's table (Miter: miter or square by the limit test; Square: square; Bevel: bevel; Round: arc; the near-straight shortcut uses doMiter only for non-round joins; the concave arm emits perp(prev), vertex, perp(curr)); (sign) groupDelta is -delta / +delta / |delta| by (end type, pathsReversed), arcs turn with the sign of groupDelta, NewGroup strips duplicates with the right closed flag and takes the orientation from the path owning the lowest vertex; (union) the clean-up is Execute(Union, reversed ? Negative : Positive) with reverseSolution = ReverseSolution != reversed; (small) |delta| < 0.5 returns the stripped input before any constructor; (xy) every point constructed in offset.go pairs X with X and Y with Y (rotations exempted by name). Does NOT decide any distance statement (band containment, k*delta bound, arc tolerance), over-shrinking or hole growth.",
 		notDecided: []string{"containment of the (delta - tol) band and the k*delta outer bound", "arc tolerance of round joins", "over-shrinking to empty, hole growth", "the numeric thresholds of the dispatch (0.999, mitLimSqr)"},
 		rules: []func(*Ctx){
-			ruleJoinDispatch("C05.join"), ruleGroupDelta("C05.sign"), ruleOffsetUnion("C05.union"), ruleXY("C05.xy", []string{"offset.go"}, 15),
+			ruleJoinDispatch("C05.join"), ruleGroupDelta("C05.sign"), ruleOffsetUnion("C05.union"), ruleXY("C05.xy", []string{"offset.go"}, 15), ruleOffsetWiring("C05.wire"),
 		},
 	})
 	register(&propDef{
@@ -201,7 +207,7 @@ func init() {
 			}),
 			rulePanics("C03.panics"), ruleMakeSizes("C03.make"), ruleConstIndex("C03.index", map[string]string{
 				"TrimCollinear64:path": "path[0] == path[1] is evaluated only after `l < 2` was false, and l never exceeds len(path) (it starts there and is only decremented), so len(path) >= 2",
-			}), ruleDivisors("C03.div"), ruleSucceeded("C03.flag"), ruleRing("C03.ring", 25, whyRing),
+			}), ruleDivisors("C03.div"), ruleSucceeded("C03.flag"), ruleMonotoneFlag("C03.open-flag", "clipperBase", "hasOpenPaths"), ruleRing("C03.ring", 25, whyRing),
 		},
 	})
 	register(&propDef{
@@ -211,6 +217,7 @@ func init() {
 		rules: []func(*Ctx){
 			ruleRectMirror("C06.mirror"),
 			ruleSegIntersectMirror("C06.mirror.seg"),
+			ruleInsideArmMirror("C06.mirror.inside"),
 			ruleDead("C06.corner-live", []string{"(RectClip64).executeInternal"}, []string{"(RectClip64).addCorner", "(RectClip64).addCornerLocation"}, 5, "corners of the rectangle enter the result only through these calls; when they are dead a path that leaves through one edge and re-enters through another loses the corner between them"),
 			ruleRectFast("C06.fast"),
 			ruleBounds("C06.bounds", []string{"getBounds"}),
